@@ -210,6 +210,16 @@ def validate_traces(specdir, scratch, traces, rep, nshards=None):
     return out
 
 
+KNOWN_FINDING_HISTORIES = {
+    # KF-HJ1: C is beaten at the first jump-off height, A and B then fail at a height not above their best:
+    # all three are re-instated; C goes on to "win"
+    'C02': ['+A +B +C |100 Ao Bo Co |105 Axxx Bxxx Cxxx |100 Ao Bo Cx |105 Ax Bx |110 Co Ax Bx'],
+    'C03': ['+A +B +C |100 Ao Bo Co |105 Axxx Bxxx Cxxx |100 Ao Bo Cx |105 Ax Bx |110 Co Ax Bx'],
+    # KF-HJ2: a pass in a jump-off column
+    'C08': ['+A +B |100 Ao Bo |105 Axxx Bxxr |100 A-'],
+}
+
+
 def _model_run(args):
     specdir, name, kw = args
     return name, common.run_tlc(specdir, name, name + '.cfg', **kw)
@@ -229,9 +239,9 @@ def run(pid, tier):
             exh = dict(nb=2, bars=bars, maxh=3, mode='all', emit=40 if quick else 25)
             tie = dict(nb=4, bars=[95, 100, 105, 110], maxh_extra=1 if quick else 2, mode='all', emit=15 if quick else 40)
         elif pid == 'C03':
-            exh = dict(nb=2, bars=[100, 105] if quick else [100, 105, 110], maxh=3 if quick else 4, mode='orderly', emit=4 if quick else 40)
+            exh = dict(nb=2, bars=[100, 105] if quick else [100, 105, 110], maxh=3 if quick else 4, mode='orderly', emit=8 if quick else 40)
             tie = dict(nb=4, bars=[95, 100, 105] if quick else [95, 100, 105, 110], maxh_extra=2 if quick else 3,
-                       mode='orderly', emit=4 if quick else 60)
+                       mode='orderly', emit=8 if quick else 60)
         else:
             exh = dict(nb=2, bars=[100, 105], maxh=2, mode='ok', emit=4) if quick else \
                 dict(nb=2, bars=[100, 105, 110], maxh=3, mode='ok', emit=120)
@@ -246,7 +256,10 @@ def run(pid, tier):
             nath = sum(1 for c in st if c['op'] == 'add')
             # in the accepted-calls-only modes nobody can register after the start: size the alphabet to the start
             nb_ = tie['nb'] if tie['mode'] == 'all' else nath
-            nm = mc_cfg(specdir, 'MC_tie%d' % k, nb_, tie['bars'], nreg + tie['maxh_extra'], 0, tie['mode'],
+            extra = tie['maxh_extra']
+            if quick and nath >= 4 and extra > 1:
+                extra -= 1          # the 4-athlete start explores one jump-off height less in the quick tier
+            nm = mc_cfg(specdir, 'MC_tie%d' % k, nb_, tie['bars'], nreg + extra, 0, tie['mode'],
                         tie['emit'], invs, starts=[st])
             tie_names.append(nm)
             runs.append((specdir, nm, dict(workers=4 if nath >= 3 and k in (0, 4) else 2, timeout=3000, heap='3g')))
@@ -308,6 +321,9 @@ def run(pid, tier):
                          extras or i % 5 == 0))
         for calls in repo_scenarios():
             jobs.append(('full', calls, None, True))
+        # the recorded findings are reproduced on the real code in every run (canonical histories)
+        for t in KNOWN_FINDING_HISTORIES[pid]:
+            jobs.append(('full', expand(t), alphabet(3, [95, 100, 105, 110]) if pid == 'C02' else None, True))
         traces = replay_all(jobs)
         rep.count('evaluations', sum(len(t['steps']) + sum(len(s.get('pr', [])) for s in t['steps']) for t in traces))
 
